@@ -31,8 +31,7 @@ open AxVerif.Pages AxVerif.BTree
 
 def parseFlags (flags : List String) : Defects :=
   { deallocKeepsNext := flags.contains "deallocKeepsNext",
-    dividerSharesChain := flags.contains "dividerSharesChain",
-    dropRollbackFreed := flags.contains "dropRollbackFreed" }
+    dividerSharesChain := flags.contains "dividerSharesChain" }
 
 def num (s : String) : Option Nat :=
   if s.isEmpty || s.length > 7 || !s.all Char.isDigit then none else s.toNat?
@@ -308,7 +307,7 @@ def stepObs (D : Defects) (i : Nat) (st : QSt) (obs : String) : Except String QS
     else if w.endsWith "c" then (num (w.dropEnd 1).toString).map (·, false)
     else (num w).map (·, false)
   let roots ← match allSome (((← need "R").splitOn ",").map parseRoot) with
-    | some l => pure ((l.filter fun r => !(D.dropRollbackFreed && r.2)).map (·.1))
+    | some l => pure (l.map (·.1))
     | none => throw s!"op{i} bad R="
   let mut tab := st.tab
   for w in ws do
